@@ -52,6 +52,10 @@ func jobsProg(variant int) sysProg {
 	st1 := sysMod{Name: "st1", Kind: "store", Inputs: []ainput{{K: "map", V: "m_src"}}, Filter: []any{}, Body: body("store")}
 	st1.Body.Pol, st1.Body.VT = "add", "int64"
 	st1.Body.Ops = []vop{{Op: "w", Base: 0, Step: 1, Val: []vterm{{T: "in", I: 0, C: 1}, {T: "const", C: 1}}, When: always()}}
+	if variant%2 == 1 { // ... and a store fed by the block source itself
+		st1.Inputs = []ainput{{K: "source", V: blockType}}
+		st1.Body.Ops = []vop{{Op: "w", Base: 0, Step: 1, Val: []vterm{{T: "num", C: 1}, {T: "const", C: 1}}, When: always()}}
+	}
 	mode := "get"
 	if variant >= 2 {
 		mode = "deltas"
